@@ -1,0 +1,135 @@
+//go:build verif
+
+package gmars
+
+// Diagnostic hooks for the /verif correspondence harness: thin exported
+// wrappers over the unexported assembler stages so that a divergence between
+// the formal model and this code can be localised stage by stage. Built only
+// with `-tags verif`; adds code only and is absent from a normal build.
+
+import "bytes"
+
+// VerifToken mirrors token
+type VerifToken struct {
+	Typ int
+	Val string
+}
+
+// VerifLine mirrors sourceLine
+type VerifLine struct {
+	Line     int
+	CodeLine int
+	Typ      int
+	Labels   []string
+	Op       string
+	AMode    string
+	A        []VerifToken
+	ANil     bool
+	BMode    string
+	B        []VerifToken
+	BNil     bool
+	Comment  string
+	Newlines int
+}
+
+func toVerifTokens(ts []token) []VerifToken {
+	if ts == nil {
+		return nil
+	}
+	out := make([]VerifToken, len(ts))
+	for i, t := range ts {
+		out[i] = VerifToken{int(t.typ), t.val}
+	}
+	return out
+}
+
+func fromVerifTokens(ts []VerifToken) []token {
+	if ts == nil {
+		return nil
+	}
+	out := make([]token, len(ts))
+	for i, t := range ts {
+		out[i] = token{tokenType(t.Typ), t.Val}
+	}
+	return out
+}
+
+// VerifLex runs the lexer (LexInput)
+func VerifLex(src []byte) ([]VerifToken, error) {
+	ts, err := LexInput(bytes.NewReader(src))
+	return toVerifTokens(ts), err
+}
+
+// VerifScan runs the symbol scanner (ScanInput)
+func VerifScan(ts []VerifToken) (map[string][]VerifToken, bool, error) {
+	syms, forSeen, err := ScanInput(newBufTokenReader(fromVerifTokens(ts)))
+	if err != nil {
+		return nil, false, err
+	}
+	out := make(map[string][]VerifToken, len(syms))
+	for k, v := range syms {
+		out[k] = toVerifTokens(v)
+	}
+	return out, forSeen, nil
+}
+
+// VerifForExpand runs one pass of the FOR expander (ForExpand)
+func VerifForExpand(ts []VerifToken, symbols map[string][]VerifToken) ([]VerifToken, error) {
+	syms := make(map[string][]token, len(symbols))
+	for k, v := range symbols {
+		syms[k] = fromVerifTokens(v)
+	}
+	out, err := ForExpand(newBufTokenReader(fromVerifTokens(ts)), syms)
+	return toVerifTokens(out), err
+}
+
+func toVerifLines(ls []sourceLine) []VerifLine {
+	out := make([]VerifLine, len(ls))
+	for i, l := range ls {
+		out[i] = VerifLine{l.line, l.codeLine, int(l.typ), l.labels, l.op, l.amode, toVerifTokens(l.a), l.a == nil,
+			l.bmode, toVerifTokens(l.b), l.b == nil, l.comment, l.newlines}
+	}
+	return out
+}
+
+func fromVerifLines(ls []VerifLine) []sourceLine {
+	out := make([]sourceLine, len(ls))
+	for i, l := range ls {
+		out[i] = sourceLine{line: l.Line, codeLine: l.CodeLine, typ: lineType(l.Typ), labels: l.Labels, op: l.Op,
+			amode: l.AMode, a: fromVerifTokens(l.A), bmode: l.BMode, b: fromVerifTokens(l.B), comment: l.Comment,
+			newlines: l.Newlines}
+	}
+	return out
+}
+
+// VerifParse runs the parser on a token list
+func VerifParse(ts []VerifToken) ([]VerifLine, WarriorData, error) {
+	p := newParser(newBufTokenReader(fromVerifTokens(ts)))
+	lines, meta, err := p.parse()
+	if err != nil {
+		return nil, WarriorData{}, err
+	}
+	return toVerifLines(lines), meta, nil
+}
+
+// VerifCompile runs the compiler stage on source lines
+func VerifCompile(lines []VerifLine, meta WarriorData, config SimulatorConfig) (WarriorData, error) {
+	c, err := newCompiler(fromVerifLines(lines), meta, config)
+	if err != nil {
+		return WarriorData{}, err
+	}
+	return c.compile()
+}
+
+// VerifEval runs evaluateExpression
+func VerifEval(ts []VerifToken) (int, error) {
+	return evaluateExpression(fromVerifTokens(ts))
+}
+
+// VerifCombineSigns / VerifFlip expose the two rewriting steps
+func VerifCombineSigns(ts []VerifToken) []VerifToken {
+	return toVerifTokens(combineSigns(fromVerifTokens(ts)))
+}
+func VerifFlip(ts []VerifToken) []VerifToken {
+	return toVerifTokens(flipDoubleNegatives(fromVerifTokens(ts)))
+}
